@@ -134,9 +134,20 @@ Proof.
   repeat rs ltac:(first [apply parse_comment_sh | apply parse_pi_sh | apply IH]).
 Qed.
 
+Lemma parse_external_literal_sh s :
+  rsimf shs (parse_external_literal text s) (parse_external_literal text2 (shs s)).
+Proof. unfold parse_external_literal. cbv zeta. go. Qed.
+
+Lemma parse_pubid_literal_sh s :
+  rsimf shs (parse_pubid_literal text s) (parse_pubid_literal text2 (shs s)).
+Proof. unfold parse_pubid_literal. cbv zeta. go. Qed.
+
 Lemma parse_external_id_sh s :
   rsimf (pmap idf shs) (parse_external_id text s) (parse_external_id text2 (shs s)).
-Proof. unfold parse_external_id. cbv zeta. go. Qed.
+Proof.
+  unfold parse_external_id. cbv zeta.
+  repeat rs ltac:(first [apply parse_external_literal_sh | apply parse_pubid_literal_sh]).
+Qed.
 
 Lemma parse_entity_def_sh s is_ge :
   rsimf (pmap (option_map shl) shs) (parse_entity_def text s is_ge) (parse_entity_def text2 (shs s) is_ge).
